@@ -238,9 +238,11 @@ type frame struct {
 }
 
 type access struct {
-	op     string // read | write
-	atomic bool
-	frames []frame
+	op      string // read | write
+	atomic  bool
+	gor     string  // "goroutine 17" / "main goroutine"
+	frames  []frame
+	created []frame // where that goroutine was started
 }
 
 type report struct {
@@ -249,7 +251,8 @@ type report struct {
 }
 
 var (
-	accRe   = regexp.MustCompile(`^(?i)(previous )?(atomic )?(read|write) at 0x[0-9a-f]+ by `)
+	accRe   = regexp.MustCompile(`^(?i)(previous )?(atomic )?(read|write) at 0x[0-9a-f]+ by ((?:main )?goroutine(?: \d+)?):`)
+	gorRe   = regexp.MustCompile(`^Goroutine (\d+) \([a-z ]+\) created at:`)
 	fileRe  = regexp.MustCompile(`^\s+(\S+):(\d+)(?: \+0x[0-9a-f]+)?\s*$`)
 	splitRe = regexp.MustCompile(`(?m)^WARNING: DATA RACE\s*$`)
 )
@@ -270,7 +273,7 @@ func parseReports(log string) []report {
 			if m == nil || n >= 2 {
 				continue
 			}
-			a := access{op: strings.ToLower(m[3]), atomic: m[2] != ""}
+			a := access{op: strings.ToLower(m[3]), atomic: m[2] != "", gor: m[4]}
 			for i+2 < len(lines) && strings.HasPrefix(lines[i+1], "  ") && strings.TrimSpace(lines[i+1]) != "" {
 				fn := strings.TrimSpace(lines[i+1])
 				fm := fileRe.FindStringSubmatch(lines[i+2])
@@ -283,6 +286,27 @@ func parseReports(log string) []report {
 			}
 			r.acc[n] = a
 			n++
+		}
+		for i := 0; i < len(lines); i++ {
+			m := gorRe.FindStringSubmatch(lines[i])
+			if m == nil {
+				continue
+			}
+			var fr []frame
+			for i+2 < len(lines) && strings.HasPrefix(lines[i+1], "  ") && strings.TrimSpace(lines[i+1]) != "" {
+				fm := fileRe.FindStringSubmatch(lines[i+2])
+				if fm == nil {
+					break
+				}
+				ln, _ := strconv.Atoi(fm[2])
+				fr = append(fr, frame{fn: strings.TrimSpace(lines[i+1]), file: fm[1], line: ln})
+				i += 2
+			}
+			for k := 0; k < n; k++ {
+				if r.acc[k].gor == "goroutine "+m[1] {
+					r.acc[k].created = fr
+				}
+			}
 		}
 		if n == 2 {
 			out = append(out, r)
@@ -498,6 +522,13 @@ func classify(r report, t *table, repo, harnessDir string) finding {
 	// no tracked field in sight: name the functions from the frames so that the fingerprint is still stable — the
 	// library function, or, for a stack that never enters the library, the function the goroutine runs
 	fn := func(a access) string {
+		// a goroutine the library started is named after the function that started it: which of its helpers touches
+		// the foreign memory first varies from run to run
+		for _, f := range a.created {
+			if strings.HasPrefix(f.file, repo+"/") {
+				return normFn(f.fn) + "(go)"
+			}
+		}
 		if s := fnOf(a); s != "" {
 			return s
 		}
